@@ -37,6 +37,10 @@ type Output struct {
 	Stubs      map[string]int    `json:"stubs"`
 	Externals  map[string]int    `json:"externals_poisoned"`
 	Queries    int               `json:"queries"`
+	OneShots   int               `json:"one_shot_queries"`
+	AsyncQueries int             `json:"async_queries"`
+	FeasStats  map[string]int    `json:"feasibility_queries"`
+	Restarts   int               `json:"solver_restarts"`
 	SolverTime float64           `json:"solver_time_s"`
 	WallTime   float64           `json:"wall_s"`
 	LoadTime   float64           `json:"load_s"`
@@ -65,10 +69,12 @@ func main() {
 		overlayDir = flag.String("overlaydir", "/verif/harness", "directory mirrored onto the repo as overlay")
 		harness    = flag.String("harness", "", "harness function name")
 		outPath    = flag.String("out", "", "result json path")
-		solverName = flag.String("solver", "z3", "z3 | z3-new | cvc5")
+		solverName = flag.String("solver", "cvc5", "incremental solver: z3 | z3-new | cvc5 (undecided queries go one-shot to z3-new and cvc5)")
 		timeoutMs  = flag.Int("timeout", 60000, "per-query timeout ms")
 		unwind     = flag.Int("unwind", 12, "default loop unwinding bound")
 		trace      = flag.Bool("trace", false, "trace")
+		jobs       = flag.Int("jobs", 4, "parallel one-shot solver processes")
+		cross      = flag.Bool("cross", false, "decide every VC with z3-new and cvc5 and require agreement")
 		smtLog     = flag.String("smtlog", "", "write SMT-LIB transcript here")
 		revMaps    = flag.Bool("reversemaps", false, "iterate maps in reverse insertion order")
 		modelPath  = flag.String("model", "", "concrete re-execution: JSON {params,model}")
@@ -158,6 +164,9 @@ func main() {
 		writeOut()
 		os.Exit(3)
 	}
+	if os.Getenv("GOSMT_DUMP") != "" {
+		hfn.WriteTo(os.Stderr)
+	}
 	TS = NewTermStore()
 	var logw io.Writer
 	if *smtLog != "" {
@@ -172,6 +181,8 @@ func main() {
 		os.Exit(3)
 	}
 	defer solver.Close()
+	solver.Jobs = *jobs
+	solver.Cross = *cross
 	e := NewEngine(prog, solver)
 	e.Unwind = *unwind
 	e.trace = *trace
@@ -229,12 +240,17 @@ func main() {
 		e.call(hfn, nil, TS.True, token.NoPos)
 		out.Status = "ok"
 	}()
+	e.finish()
 	out.VCs = e.VCs
 	out.Functions = e.FnCount
 	out.Stubs = e.StubsUsed
 	out.Externals = e.Externals
 	out.Queries = solver.Queries
-	out.SolverTime = solver.Time.Seconds()
+	out.OneShots = solver.OneShots
+	out.Restarts = solver.Restarts
+	out.SolverTime = solver.Time.Seconds() + solver.AsyncTime.Seconds()
+	out.AsyncQueries = solver.AsyncQueries
+	out.FeasStats = e.FeasStats
 	out.Terms = len(TS.terms)
 	out.Assumes = e.Assumes
 	out.Unwind = e.Unwind
